@@ -20,6 +20,7 @@ mod render;
 mod trace_arrays;
 mod trace_math;
 mod trace_sink;
+mod trace_soups;
 mod trace_threads;
 mod util;
 mod val;
@@ -83,6 +84,7 @@ fn main() {
             Some("threads") => trace_threads::main(&args[3..]),
             Some("arrays") => trace_arrays::main(&args[3..]),
             Some("math") => trace_math::main(&args[3..]),
+            Some("soups") => trace_soups::main(&args[3..]),
             _ => 2,
         },
         _ => {
